@@ -81,6 +81,15 @@ def lex_to_coq(t):
     return {"string": "LString", "bool": "LBool", "double": "LDouble", "unknown": "LUnknown"}[k]
 
 
+def unknown_texts(lx):
+    """texts of the ("unknown", text) members of a lexical space, depth first."""
+    if lx[0] == "unknown":
+        return [lx[1]]
+    if lx[0] == "union":
+        return [t for m in lx[1] for t in unknown_texts(m)]
+    return []
+
+
 def lexspec(sch, q, unm):
     """XSD simple type -> lexical space as a python structure (see lex_to_coq)."""
     if q is None:
@@ -514,6 +523,12 @@ def main():
         r["sig"] = "%s/@%s:%s" % (r["cls"], r["attr"], r["st"])
     L.append("Definition known_write : list N := [%s]." % "; ".join(str(r["id"]) for r in rows if r["sig"] in known_w))
     L.append("Definition known_read : list N := [%s]." % "; ".join(str(r["id"]) for r in rows if r["sig"] in known_r))
+    # the facets behind every LUnknown member of a row's lexical space, in traversal order (the text
+    # of the pattern facet, or why the type could not be expressed): proofs/C11_class_instance.v
+    # looks each text up in its table of transcribed patterns; a text it does not know stays unjudged
+    L.append("Definition row_unknowns : list (N * list str) := [%s]." % "; ".join(
+        "(%d, [%s])" % (r["id"], "; ".join(coq_str(t) for t in unknown_texts(r["lex"])))
+        for r in rows if unknown_texts(r["lex"])))
     L.append("Close Scope N_scope.")
     L.append("Definition n_unmodelled : nat := %d%%nat." % len(unm))
     disp_w = "fun v => Err OtherErr"
